@@ -10,16 +10,22 @@ Oracle (from the statement):
            CLI must leave the file's bytes alone;
   idem     fmt(fmt(s)) == fmt(s) (and fmt(s) must itself be accepted);
   comment  the comment token texts of s and fmt(s) are the same sequence;
-  tree     when s parses with xonsh's own three-phase parser (Execer.parse(s, ctx=set())), fmt(s)
-           parses too and to the same tree under a location-free dump (ast.dump without attributes:
-           string constants, macro raw texts and subprocess argument strings are repr()ed, i.e.
-           compared byte for byte).
+  tree     when s parses with xonsh's own three-phase parser (Execer.parse(s, ctx=BOUND) - the
+           grammar's variables are bound names, command words are not; XV_C17_CTX=empty gives the
+           all-unbound reading ctx=set()), fmt(s) parses too and to the same tree under a
+           location-free dump (ast.dump without attributes: string constants, macro raw texts and
+           subprocess argument strings are repr()ed, i.e. compared byte for byte).  Not applied to
+           the prefix family (those inputs exist for the reject / idem / comment clauses).
+  A formatter call that does not return within 15 s on un-tokenisable input is a violation of
+  "rejected with an error"; after 3 hangs per worker the rest is skipped and exhaustive=false.
 
 Does NOT require (never flagged):
   * any particular style of the output (spacing, indent width, blank-line caps, quote style);
   * that un-parsable-but-tokenisable input stays un-parsable, or anything about its tree;
   * that the formatter accepts every tokenisable input (it may reject with FormatError; an internal
-    exception is counted in the evidence but is not a violation of this statement);
+    exception / hang on tokenisable input is counted in the evidence but is not a violation of this
+    statement);
+  * anything about a tree when xonsh's parser rejects the INPUT (only idem / comment / reject apply);
   * blanks *after* a comment's text or before its '#' to be kept (comment texts are compared after
     strip());
   * CR LF line ends to survive: files are read in text mode by both `xonsh format` and xonsh's
@@ -118,20 +124,30 @@ def _tokens(text):
 
 
 _fmt_cache = {}
+# a formatter that does not come back is recorded, but may not eat the budget: after this many
+# hangs in one worker the remaining cases of that worker are skipped and the run is marked
+# non-exhaustive
+_HANGS = 0
+_HANG_BUDGET = 3
+_FMT_TIMEOUT = 15.0
 
 
 def _fmt(text):
     """('ok', out) | ('reject', msg) | ('crash', exc name)"""
+    global _HANGS
     hit = _fmt_cache.get(text)
     if hit is not None:
         return hit
-    signal.setitimer(signal.ITIMER_REAL, 30.0)
+    if _HANGS >= _HANG_BUDGET:
+        return ("crash", "skipped-after-hangs")
+    signal.setitimer(signal.ITIMER_REAL, _FMT_TIMEOUT)
     try:
         res = ("ok", _FMT.format_source(text))
     except _FMT.FormatError as e:
         res = ("reject", str(e)[:80])
     except _Timeout:
-        res = ("crash", "hang>30s")
+        _HANGS += 1
+        res = ("crash", "hang")
     except Exception as e:  # noqa: BLE001
         res = ("crash", type(e).__name__)
     finally:
@@ -161,6 +177,7 @@ def _cli_file(data: bytes):
         f.write(data)
     args = argparse.Namespace(check=False, diff=False, quiet=True, files=[path])
     fn = getattr(cli, "_process_one", None)
+    signal.setitimer(signal.ITIMER_REAL, _FMT_TIMEOUT)
     try:
         with contextlib.redirect_stderr(io.StringIO()), contextlib.redirect_stdout(io.StringIO()):
             if fn is not None:
@@ -173,8 +190,12 @@ def _cli_file(data: bytes):
         outcome = "FormatError"
     except UnicodeDecodeError:
         outcome = "UnicodeDecodeError"
+    except _Timeout:
+        outcome = "hang"
     except Exception as e:  # noqa: BLE001
         outcome = type(e).__name__
+    finally:
+        signal.setitimer(signal.ITIMER_REAL, 0)
     with open(path, "rb") as f:
         after = f.read()
     return outcome, after
@@ -700,6 +721,12 @@ def evaluate(src, file_path=False, tree_clause=True):
         res = _fmt(text)
         if res[0] == "ok":
             viols.append(dict(key=f"reject:accepted:{tokerr}", clause="input that cannot be tokenised is rejected", observed={"format_source": res[1]}, expected=f"FormatError (tokenize raises {tokerr})"))
+        if res == ("crash", "skipped-after-hangs"):
+            flags["skipped_after_hangs"] = 1
+            return flags, viols
+        if res == ("crash", "hang"):
+            viols.append(dict(key=f"reject:hang:{tokerr}", clause="input that cannot be tokenised is rejected with an error", observed=f"format_source did not return within {_FMT_TIMEOUT} s", expected=f"FormatError (tokenize raises {tokerr})"))
+            return flags, viols
         outcome, after = _cli_file(data)
         if after != data:
             viols.append(dict(key=f"reject:file-rewritten:{tokerr}", clause="rejected input is never rewritten", observed={"cli": outcome, "bytes_after": after.decode("utf-8", "replace")}, expected="file bytes unchanged"))
@@ -709,6 +736,8 @@ def evaluate(src, file_path=False, tree_clause=True):
         flags["rejected" if res[0] == "reject" else "crashed"] = 1
         if res[0] == "crash":
             flags["crash:" + res[1]] = 1
+            if res[1] == "skipped-after-hangs":
+                flags["skipped_after_hangs"] = 1
         return flags, viols
     out = res[1]
     flags["accepted"] = 1
@@ -918,7 +947,8 @@ def run(ctx):
             f"k={_KCORE} for the core forms (pairs over the reduced alphabet); plus every proper prefix of each core form's canonical text (tokenisation clause). "
             "non-trivial = distinct program texts that xonsh's parser accepted, i.e. that reached the tree comparison"
         ),
-        exhaustive=True,
+        exhaustive=not stats.get("skipped_after_hangs", 0),
+        caps_hit=(["formatter hang budget: %d cases skipped" % stats["skipped_after_hangs"]] if stats.get("skipped_after_hangs") else []),
         forms=len(_FORMS),
         distinct_programs=stats.get("distinct", 0),
         accepted_by_formatter=stats.get("accepted", 0),
